@@ -1,28 +1,22 @@
 (* C13 Symmetric hash join emits exactly the join of everything that arrived.
    This file contains only the property theorems; each is closed by an exact/apply of a
-   lemma proved in Pull/PJoin.v and followed by Print Assumptions.
+   lemma proved in Pull/PJoin*.v and followed by Print Assumptions.
 
-   FULL STATEMENT (target):  for every pair of fused scripts l1, l2 of arrivals and Pending
-   answers and either state semantics s, starting from empty states,
-       runs_to (shj_m s) (half0, half0, l1, l2) out st'  ->
-       Permutation out (join_rows (built s (items l1)) (built s (items l2)))
-   (built = first occurrences for SetSem, everything for MultiSem; for SetSem also NoDup out),
-   the new-tick path yields the same multiset, and over ticks with persisted states
-   each tick's output is the join of everything that arrived within the persisted scope.
-
-   PROVED HERE (hence the suffix _partial on the main theorem): the invariant
-       emitted + pending matches + join(old tables) = pending before + join(new tables)
-   for every single poll and every whole run, over all scripts; at the end nothing is pending,
-   so   emitted + join(initial tables) = join(final tables)   -- each matching pair of table
-   entries exactly once; the new-tick enumeration (both lhs_smaller branches) = join of the
-   drained tables; what build/probe do to a table; for the multiset state the drained table
-   holds exactly the initial rows plus the arrivals.
-   MISSING: the characterisation "final tables of the incremental run = built s (arrivals)"
-   (needs one more loop invariant: rows(table) ++ dedup'd remaining items is preserved) and,
-   for SetSem, NoDup of the output.  Both are checked on every run on the implementation's
-   outputs by C13_holds_b (Pull/CorrJoin.v), not proved. *)
+   Model: Pull/ModelJoin.v (HalfSetJoinState / HalfMultisetJoinState build / probe / pop_match,
+   SymmetricHashJoin::pull, drain, NewTickJoinIter, the operator over ticks).  Scripts of
+   Rdy (k, v) / Pend / End answers of any length; inputs are FusedPull (fused scripts).
+     C13_incremental            emitted = join (built s lhs arrivals) (built s rhs arrivals)
+                                (built = first occurrences for set state, all for multiset)
+     C13_incremental_persisted  same on top of pre-built (persisted) tables
+     C13_set_each_pair_once     set state: the output is duplicate-free
+     C13_terminates / C13_fuel_enough   the consumer loop ends; the model's loop fuel suffices
+     C13_poll_invariant / C13_run_invariant   emitted + pending = join(built lhs, built rhs)
+     C13_new_tick*              both NewTickJoinIter branches enumerate the join of the tables
+     C13_new_tick_same_as_incremental
+     C13_ticks                  per tick, with 'tick / 'static persistence per side, the output is
+                                the join of everything that arrived within the persisted scope *)
 From Coq Require Import Permutation.
-From HV Require Import Pull.Model Pull.PCore Pull.ModelJoin Pull.PJoin.
+From HV Require Import Pull.Model Pull.PCore Pull.ModelJoin Pull.PJoin Pull.PJoin2 Pull.CorrJoin Pull.PJoin3.
 Open Scope N_scope.
 
 (* every poll of SymmetricHashJoin preserves the invariant, whatever the scripts answer *)
@@ -42,11 +36,11 @@ Proof. exact shj_runs_ended. Qed.
 Print Assumptions C13_nothing_pending_at_end.
 
 (* st = (lhs_state, rhs_state, lhs script, rhs script); JS = join of the two tables' rows *)
-Theorem C13_incremental_partial : forall s st out st',
+Theorem C13_emits_join_of_tables : forall s st out st',
   wf st -> pend st = [] -> runs_to (shj_m s) st out st' ->
   Permutation (out ++ JS st) (JS st').
 Proof. exact shj_emits_join. Qed.
-Print Assumptions C13_incremental_partial.
+Print Assumptions C13_emits_join_of_tables.
 
 Theorem C13_new_tick : forall s h1 h2 l1 l2, keys_ok (table h1) -> keys_ok (table h2) ->
   let '(h1', h2', out) := new_tick s h1 h2 l1 l2 in Permutation out (J h1' h2').
@@ -73,6 +67,54 @@ Theorem C13_drain_multiset : forall l h,
   Permutation (rows (table (drain MultiSem h l))) (rows (table h) ++ items l).
 Proof. exact drain_multi_rows. Qed.
 Print Assumptions C13_drain_multiset.
+
+(* ---- the property, in full ---- *)
+
+(* from empty states: every completed run over fused scripts emits exactly the join of what
+   arrived (deduplicated per side for set state, with multiplicity for multiset state) *)
+Theorem C13_incremental : forall s l1 l2 out st',
+  fused_b l1 = true -> fused_b l2 = true ->
+  runs_to (shj_m s) (half0, half0, l1, l2) out st' ->
+  Permutation out (join_rows (built s (items l1)) (built s (items l2))).
+Proof. exact shj_from_empty. Qed.
+Print Assumptions C13_incremental.
+
+(* on top of persisted tables: emitted + what the old tables had already produced = join of
+   (old rows + new arrivals) on both sides; ev1 / ev2 = built_from s (rows table) (items script) *)
+Theorem C13_incremental_persisted : forall s st out st',
+  wf st -> pend st = [] -> fusedst st -> runs_to (shj_m s) st out st' ->
+  Permutation (out ++ JS st) (join_rows (ev1 s st) (ev2 s st)).
+Proof. exact shj_emits_join_of_arrivals. Qed.
+Print Assumptions C13_incremental_persisted.
+
+Theorem C13_set_each_pair_once : forall st out st',
+  wf st -> pend st = [] -> fusedst st -> runs_to (shj_m SetSem) st out st' ->
+  (let '(h1, h2, _, _) := st in NoDup (rows (table h1)) /\ NoDup (rows (table h2))) ->
+  NoDup out.
+Proof. exact shj_set_nodup. Qed.
+Print Assumptions C13_set_each_pair_once.
+
+Theorem C13_terminates : forall s st, exists out st', runs_to (shj_m s) st out st'.
+Proof. exact shj_terminates. Qed.
+Print Assumptions C13_terminates.
+
+Theorem C13_fuel_enough : forall s st, shj_loop s (shj_fuel st) st = Some (shj_pull s st).
+Proof. exact shj_fuel_enough. Qed.
+Print Assumptions C13_fuel_enough.
+
+Theorem C13_new_tick_same_as_incremental : forall s l1 l2 out st',
+  fused_b l1 = true -> fused_b l2 = true ->
+  runs_to (shj_m s) (half0, half0, l1, l2) out st' ->
+  let '(_, _, out_tick) := new_tick s half0 half0 l1 l2 in Permutation out out_tick.
+Proof. exact new_tick_same_as_incremental. Qed.
+Print Assumptions C13_new_tick_same_as_incremental.
+
+(* p1 / p2 = true for 'static, false for 'tick; ref_ticks (Pull/CorrJoin.v) joins, per tick,
+   built s (everything that arrived on that side since its state was last cleared) *)
+Theorem C13_ticks : forall s p1 p2 ticks,
+  Forall2 (@Permutation _) (run_ticks s p1 p2 half0 half0 ticks) (ref_ticks s p1 p2 [] [] ticks).
+Proof. intros s p1 p2 ticks. apply run_ticks_ref; apply holds_empty. Qed.
+Print Assumptions C13_ticks.
 
 (* non-vacuity: duplicates on both sides, a Pend on each side; set vs multiset *)
 Example C13_ex_set :
